@@ -93,6 +93,7 @@ type vfdNet struct {
 	hold        *vfdHold
 	nHeld       atomic.Int64
 	dropFrom    map[string]string // sender address -> bundle kind that is lost on its way out ("" = none)
+	errs        *vfdErrRing
 	dropLink    map[string]string // "from>to" -> bundle kind lost on that one directed link (echoes by third nodes still arrive)
 	lagStop     chan struct{}
 	maxLagNs    atomic.Int64 // worst lateness of a 5 ms timer since the last reset: is this box keeping time?
@@ -302,8 +303,40 @@ func vfdLogger() log.Logger {
 	return log.New(zapcore.AddSync(io.Discard), log.FatalLevel, true)
 }
 
+// vfdErrRing keeps the last error-level log lines of all nodes of one net (why a node's run of the protocol failed
+// is only said there); attached to reports, never judged.
+type vfdErrRing struct {
+	mu    sync.Mutex
+	lines []string
+}
+
+func (r *vfdErrRing) Write(p []byte) (int, error) {
+	r.mu.Lock()
+	l := strings.TrimSpace(string(p))
+	if len(l) > 500 {
+		l = l[:500]
+	}
+	r.lines = append(r.lines, l)
+	if len(r.lines) > 60 {
+		r.lines = r.lines[len(r.lines)-40:]
+	}
+	r.mu.Unlock()
+	return len(p), nil
+}
+func (r *vfdErrRing) Sync() error { return nil }
+func (r *vfdErrRing) tail() []string {
+	r.mu.Lock()
+	defer r.mu.Unlock()
+	return append([]string(nil), r.lines...)
+}
+
 func vfdNewNet(baseDir, beaconID string, sch *crypto.Scheme, cfg Config, seed uint64) *vfdNet {
-	return &vfdNet{beaconID: beaconID, sch: sch, cfg: cfg, baseDir: baseDir, lg: vfdLogger(),
+	ring := &vfdErrRing{}
+	lg := vfdLogger()
+	if os.Getenv("VFD_LOGS") == "" {
+		lg = log.New(zapcore.AddSync(ring), log.ErrorLevel, true)
+	}
+	return &vfdNet{beaconID: beaconID, sch: sch, cfg: cfg, baseDir: baseDir, lg: lg, errs: ring,
 		nodes: map[string]*vfdNode{}, rng: vfNewRng(seed ^ 0x6e6574), pending: map[string]int{}}
 }
 
